@@ -305,8 +305,15 @@ def quick_work(shard, n4, n3, n2, seed):
                 part.samples.append({"ver": ver, "lo": lo, "hi": hi, "scores": [list(slo), list(shi)]})
 
     # v4: effective class, each metric expressed through base or Modified metric
-    for _ in range(n4):
-        eff = dict((k, rng.choice(d)) for k, d in zip(K4, DOM4))
+    from .. import oracles
+    macro_keys = sorted(oracles.look())
+    for i4 in range(n4):
+        if i4 % 2:
+            # stratified: every macrovector gets the same attention (uniform sampling almost never visits the thin ones)
+            eff = oracles.random_in_macro(rng, macro_keys[(i4 // 2 + shard * 17) % len(macro_keys)])
+            part.classes["v4 macrovector-stratified classes"] += 1
+        else:
+            eff = dict((k, rng.choice(d)) for k, d in zip(K4, DOM4))
         style = dict((k, rng.random() < 0.5) for k in K4[:11])   # True: via Modified metric
         base = {}
         for k in K4[:11]:
